@@ -57,7 +57,8 @@ def explore(tier, seed):
     clen = 2000 if tier == "quick" else 10000
     for s in CHAIN_STARTS:
         chunks.append(("chain", s, clen))
-    for s in ("0042", "0998", "777", "0001", "1001", "7", "09998"):
+    # (1098, 1997, 0098, 10998: chains that pass through ids ending in 00 and through a digit-length expansion)
+    for s in ("0042", "0998", "777", "0001", "1001", "7", "09998", "1098", "1997", "0098", "98", "10998", "8997"):
         chunks.append(("update-chain", s, 6))
     chunks.sort(key=lambda c: (c[0] != "edges", 0))  # stable: edges first
     return pool.run_chunks(run_chunk, chunks)
@@ -190,13 +191,19 @@ def update_chain(st, start, n):
 
     d = pool.fresh_dir("c17u")
     os.chdir(d)
-    for pattern, prefix in (("vYYYY.BUILD", "v2020."), ("YYYY.BLD", "2020.")):
+    # (YYYY.BUILD: a version that reads like a decimal number; once in bumpver.toml, once unquoted in setup.cfg)
+    for pattern, prefix, fmt in (("vYYYY.BUILD", "v2020.", "toml"), ("YYYY.BLD", "2020.", "toml"), ("YYYY.BUILD", "2020.", "toml"), ("YYYY.BUILD", "2020.", "ini")):
         if pattern == "YYYY.BLD" and (start.startswith("0") and len(start) > 1):
             continue
         cur = prefix + start
         world.clear_dir(".")
-        cfg = f'[bumpver]\ncurrent_version = "{cur}"\nversion_pattern = "{pattern}"\ncommit = false\n\n[bumpver.file_patterns]\n"a.txt" = ["ver={{version}};"]\n'
-        world.write_tree({"bumpver.toml": cfg.encode(), "a.txt": f"ver={cur};\n".encode()})
+        if fmt == "toml":
+            cfg = f'[bumpver]\ncurrent_version = "{cur}"\nversion_pattern = "{pattern}"\ncommit = false\n\n[bumpver.file_patterns]\n"a.txt" = ["ver={{version}};"]\n'
+            world.write_tree({"bumpver.toml": cfg.encode(), "a.txt": f"ver={cur};\n".encode()})
+        else:
+            cfg = f'[bumpver]\ncurrent_version = {cur}\nversion_pattern = {pattern}\ncommit = False\n\n[bumpver:file_patterns]\na.txt =\n    ver={{version}};\n'
+            world.write_tree({"setup.cfg": cfg.encode(), "a.txt": f"ver={cur};\n".encode()})
+            pattern = pattern + " (setup.cfg)"
         os.mkdir(".git")
         for i in range(n):
             fake = fakevcs.install(fakevcs.FakeVCS("git", tags_all=[prefix + start], tags_merged=[prefix + start], status=[]))
